@@ -593,6 +593,7 @@ fn evaluate_c02(p: &TProgram, h: &THistory, out: &mut Outcome, viols: &mut Vec<V
     let acked = |o: &&crate::ringt::TOp| o.resp.as_ref().map(|r| r.status == wire::status::OK).unwrap_or(false);
     let deleted = h.ops.iter().any(|o| o.req.key == *main && matches!(op_info(o.req.opcode).kind, Kind::Delete) && o.resp.as_ref().map(|r| r.status != wire::status::NOT_FOUND && r.status != wire::status::EXISTS).unwrap_or(true));
     if !deleted {
+        let initially_present = h.init_model.presence(main) == crate::model::Presence::Present;
         let mut seen: Vec<(u64, String, bool)> = Vec::new();
         if let Some(c) = h.init_model.current_cas(main) {
             if h.init_model.presence(main) == crate::model::Presence::Present {
@@ -605,7 +606,9 @@ fn evaluate_c02(p: &TProgram, h: &THistory, out: &mut Outcome, viols: &mut Vec<V
                 viols.push(Violation::new("C02", "zero-cas-acknowledged", format!("T{}.{} acknowledged CAS 0; history: {}", o.client, o.index, describe_history(h))));
             }
             // a CAS-carrying store that created the item answers supplied + 1 instead of a counter value
-            let derived = o.req.cas != 0 && c == o.req.cas.wrapping_add(1);
+            // (possible only if the key can have been absent: here nothing deletes, so only if it
+            // was absent or expired when the clients started)
+            let derived = o.req.cas != 0 && c == o.req.cas.wrapping_add(1) && !initially_present;
             if let Some((_, who, d2)) = seen.iter().find(|(x, _, _)| *x == c) {
                 let clause = if derived || *d2 { "cas-reused-in-lifetime-begun-with-client-cas" } else { "concurrent-cas-reused-within-lifetime" };
                 viols.push(Violation::new("C02", clause, format!("T{}.{} was acknowledged with CAS {} which {} carries as well (no delete in between): two versions of the item share a token; history: {}", o.client, o.index, c, who, describe_history(h))));
